@@ -46,8 +46,11 @@ def observe(out):
         return ('bool', bool(out.value))
     if isinstance(out, T.Number):
         v = out.value
-        if isinstance(v, int) and not isinstance(v, bool) and abs(v) > 10 ** 300:
-            return ('num', float('inf') if v > 0 else float('-inf'))
+        if isinstance(v, int) and not isinstance(v, bool) and abs(v) > 10 ** 15:
+            try:
+                return ('num', float(v))
+            except OverflowError:
+                return ('num', float('inf') if v > 0 else float('-inf'))
         if isinstance(v, (numpy.integer,)):
             v = int(v)
         if isinstance(v, (numpy.floating,)):
